@@ -34,16 +34,22 @@ def parseEff : String → Option EffKind
   | "md" => some .md
   | _ => none
 
+def parseCfg4 (kind srcs ini eff : String) (via : Bool) : Option Cfg :=
+  if !kinds.contains kind then none else
+  match (srcs.splitOn ",").mapM String.toNat?, parseEff eff with
+  | some vs, some e =>
+    if vs.isEmpty || vs.length > 3 then none else
+    if ini == "-" then some { srcs := vs, init := none, eff := e, viaMemo := via }
+    else ini.toNat?.map fun v => { srcs := vs, init := some v, eff := e, viaMemo := via }
+  | _, _ => none
+
 def parseCfg (w : List String) : Option Cfg :=
   match w with
-  | [kind, srcs, ini, eff] =>
-    if !kinds.contains kind then none else
-    match (srcs.splitOn ",").mapM String.toNat?, parseEff eff with
-    | some vs, some e =>
-      if vs.isEmpty || vs.length > 3 then none else
-      if ini == "-" then some { srcs := vs, init := none, eff := e }
-      else ini.toNat?.map fun v => { srcs := vs, init := some v, eff := e }
-    | _, _ => none
+  | [kind, srcs, ini, eff] => parseCfg4 kind srcs ini eff false
+  | [kind, srcs, ini, eff, via] =>
+    if via == "sig" then parseCfg4 kind srcs ini eff false
+    else if via == "memo" then parseCfg4 kind srcs ini eff true
+    else none
   | _ => none
 
 def stepOp (s : State) (w : List String) : Option State :=
